@@ -35,7 +35,7 @@ GEN_KEYS = ['writer']
 M = 'MorphKgc.Props.C04'
 # composition theorem (CLI run end to end = C01 + C02 + C03 + C04 + C05); informational, see vlib.lean_phase
 INFO_TARGETS = ['MorphKgc.Props.Pipeline']
-INFO_THEOREMS = [{'name': f'Props.Pipeline.{n}', 'module': 'MorphKgc.Props.Pipeline'} for n in ('cli_nquads', 'cli_nquads_syntactic')]
+INFO_THEOREMS = [{'name': f'Props.Pipeline.{n}', 'module': 'MorphKgc.Props.Pipeline'} for n in ('cli_nquads', 'cli_nquads_syntactic', 'cli_set')]
 THEOREMS = [{'name': f'Props.C04.{n}', 'module': M} for n in [
     'writerShape_ok', 'mainShape_ok', 'libShape_ok', 'translated',
     'C04_chunks_whole_lines', 'C04_chunks_whole_statements', 'C04_rawLens_are_payload_sizes', 'C04_two_calls_counterwitness',
